@@ -1,0 +1,116 @@
+//go:build verif
+
+package throttle
+
+// Contracts for the verification harness under /verif (comment-only file).
+//
+// C16 (in-memory backend).  Bucket ids: cur = id of the wall clock, tid = id of
+// the event time (timeToBucketID is uninterpreted: any two ids).
+
+// rebuildBuckets: establishes / keeps maxID == minID + count - 1, never moves
+// minID backwards, resets min(dif, count) buckets exactly when the clock moved
+// past maxID, and maps the event time into [minID, maxID] (out-of-window times,
+// past or future, count against the newest bucket).
+
+//@ func rebuildBuckets
+//@   ghost ncall int = 0
+//@   ghost cur int = 0
+//@   ghost tid int = 0
+//@   ghost nreset int = 0
+//@   ghost resetn int = 0
+//@   ghost min0 int = 0
+//@   requires meta != nil && meta.count >= 1
+//@   requires meta.minID != 0 ==> meta.maxID == meta.minID + meta.count - 1
+//@   setat "currentID := meta.timeToBucketID(currentTs)" min0 := meta.minID
+//@   ensures meta.maxID == meta.minID + meta.count - 1 && meta.count == old(meta.count)
+//@   ensures old(meta.minID) != 0 ==> meta.minID >= old(meta.minID)
+//@   ensures old(meta.minID) != 0 && cur <= old(meta.maxID) ==> meta.minID == old(meta.minID) && nreset == 0
+//@   ensures old(meta.minID) != 0 && cur > old(meta.maxID) ==> meta.maxID == cur && nreset == 1 && resetn == min(cur - old(meta.maxID), meta.count)
+//@   ensures old(meta.minID) == 0 ==> meta.maxID == cur && nreset == 0
+//@   ensures meta.minID <= result && result <= meta.maxID
+//@   ensures meta.minID <= tid && tid <= meta.maxID ==> result == tid
+//@   ensures !(meta.minID <= tid && tid <= meta.maxID) ==> result == meta.maxID
+//@   callee timeToBucketID(t) (r)
+//@     pure
+//@     set cur := ite(ncall == 0, r, cur)
+//@     set tid := ite(ncall == 0, tid, r)
+//@     set ncall := ncall + 1
+//@   callee resetFn(n)
+//@     requires nreset == 0 && 1 <= n && n <= meta.count
+//@     preserves bucketsMeta
+//@     set nreset := nreset + 1
+//@     set resetn := n
+
+// The ring shift of the simple buckets (closure passed to rebuildBuckets): the
+// oldest `count` buckets are dropped, the rest move down, the freed tail is zero.
+
+//@ func (*simpleBuckets).rebuild$1
+//@   requires 0 <= count && count <= len(b.b) && b.count == len(b.b)
+//@   ensures len(b.b) == old(len(b.b)) && b.count == old(b.count) && b.minID == old(b.minID) && b.maxID == old(b.maxID)
+//@   ensures forall k :: 0 <= k && k < len(b.b) - count ==> b.b[k] == old(b.b[k + count])
+//@   ensures forall k :: len(b.b) - count <= k && k < len(b.b) ==> b.b[k] == 0
+//@   loop 1 invariant 0 <= i && i <= count && len(b.b) == old(len(b.b)) && b.count == len(b.b)
+//@   loop 1 invariant forall k :: 0 <= k && k < len(b.b) - count ==> b.b[k] == old(b.b[k + count])
+//@   loop 1 invariant forall k :: len(b.b) - i <= k && k < len(b.b) ==> b.b[k] == 0
+//@   callee getCount() (r)
+//@     pure
+//@     ensures r == b.count
+//@   callee reset(idx)
+//@     requires 0 <= idx && idx < len(b.b)
+//@     modifies b.b[idx]
+//@     ensures b.b[idx] == 0
+
+//@ func (*simpleBuckets).add
+//@   requires 0 <= index && index < len(b.b)
+//@   modifies b.b[index]
+//@   ensures b.b[index] == old(b.b[index]) + value
+
+//@ func (*simpleBuckets).get
+//@   requires 0 <= index && index < len(b.b)
+//@   pure
+//@   ensures result == b.b[index]
+
+//@ func (*simpleBuckets).reset
+//@   requires 0 <= index && index < len(b.b)
+//@   modifies b.b[index]
+//@   ensures b.b[index] == 0
+
+// isAllowed: a negative limit passes everything; otherwise, under the limiter's
+// lock, the event is first added to the bucket of its (possibly re-mapped) time
+// - slot distrIdx, amount 1 or the event size - and then passes iff that bucket
+// is within the limit selected for it.
+
+//@ func (*inMemoryLimiter).isAllowed
+//@   option allow-exit yes
+//@   ghost nadd int = 0
+//@   ghost val int = 0
+//@   ghost lim0 int = 0
+//@   requires event != nil
+//@   ensures lim0 < 0 ==> result && nadd == 0
+//@   ensures lim0 >= 0 ==> nadd == 1 && result == (val <= limit)
+//@   callee getLimit() (r)
+//@     pure
+//@     set lim0 := r
+//@   callee lock()
+//@     pure
+//@   callee unlock()
+//@     pure
+//@   callee rebuildBuckets(t) (r)
+//@     preserves inMemoryLimiter, Event
+//@   callee getMinID() (r)
+//@     pure
+//@   callee isEnabled() (r)
+//@     pure
+//@   callee getDistrData(i, e) (s, di, lim)
+//@     requires i == index && e == event
+//@     preserves inMemoryLimiter, Event
+//@   callee add(i, d, v)
+//@     requires nadd == 0 && i == index && d == distrIdx
+//@     preserves inMemoryLimiter, Event
+//@     set nadd := nadd + 1
+//@   callee get(i, d) (r)
+//@     requires nadd == 1 && i == index && d == distrIdx
+//@     pure
+//@     set val := r
+//@   callee updateDistrMetrics(s, e)
+//@     preserves inMemoryLimiter, Event
